@@ -5,8 +5,12 @@ Document universe D (verif.props.c06_docs; plain-JSON specs, bytes depend on the
   * for each of 25 generated formats (docx odt rtf pptx odp odg odf ppt pdf html mhtml epub txt md json csv xlsx ods xls eml
     mbox zip tar tgz 7z): the empty document, the rich document (every feature of the format, 2 instances each; thorough also
     3 each), every single feature with 5 (thorough also 6 and 8) DISTINCT instances - style names, hyperlinks, bookmarks,
-    images, tables, list items, notes, comments, revisions, text boxes, formulas, units, sheets, rows, recipients, attachments,
-    messages, archive members; every on/off feature and every variant of a choice feature as a document of its own: optional
+    images, images WITH alternative text (altimgs: descr attribute / svg:title + svg:desc - what the caption options of the
+    accessors print), tables, list items, notes, comments, revisions, text boxes, formulas, units, sheets, rows, recipients,
+    attachments, messages, archive members, keywords of the metadata (kwords: ODF one meta:keyword element each, EPUB one
+    dc:subject each), and for the formula document (.odf) what a typical file has exactly ONE of: further <semantics> blocks with
+    their own StarMath annotation (formulas), further blocks whose annotation is a fraction `frac {a} {b}` (fracs), further
+    annotations of one block in other encodings (encodings) - every annotation text distinct; every on/off feature and every variant of a choice feature as a document of its own: optional
     information absent at every level (OOXML without core-properties part - a generated OOXML document without "meta" has an
     EMPTY <cp:coreProperties/> -, ODF without meta.xml / with an empty <office:meta/>, e-mail without Date and Message-ID,
     attachments without file name, embedded message/rfc822), and the 8 forms of the PDF standard security handler (RC4-40,
@@ -36,10 +40,21 @@ judges - PYTHONPATH is handed on, so `PYTHONPATH=<tree> ./check C06` judges <tre
                  that has extracted the quick universe.
   input-mutated  the caller's BytesIO holds the same bytes afterwards (a closed buffer counts as lost content); the stream
                  position the library leaves behind is recorded, not judged
-Space `histories` (clause history; explicit-state exploration).  Observer alphabet O = full_text, units (iterate_units + every
+Space `histories` (clause history; explicit-state exploration).  Base observers: full_text, units (iterate_units + every
 unit accessor: get_text, get_images + image accessors, get_tables, get_metadata, to_json), units_first (first unit only, iterator
-abandoned), images (iterate_images + get_bytes().read() + accessors), tables, metadata, to_json, serialize_nobin
-(serialize_extraction(include_binary=False)), attachments (iterate_supported_attachments; e-mail results only).  State =
+abandoned), images (iterate_images + get_bytes().read() + accessors), tables, metadata, to_json, serialize
+(serialize_extraction(result)), parts (every library object the result is made of - slides, sheets, images, metadata ...,
+reached through dataclass fields / lists / dicts -: every public method that can be called without arguments, found by
+reflection), attachments (iterate_supported_attachments; e-mail results only).
+Accessor OPTIONS: the optional parameters of every interface method, of every accessor of a unit / image / table / metadata
+object, of serialize_extraction and of every method of a part are discovered by reflection (inspect.signature) on the objects
+of the document at hand; every parameter with an enumerable domain (bool default -> the other truth value; Optional[bool] -> True,
+False) is an axis, and every combination of non-default values (<= 16 combinations, else one deviation at a time) is an observer
+of its own, spelled base(param=value) - today full_text / units / units_first (include_image_captions=True) for PPTX results,
+serialize(include_binary=False) for all, parts(options=True) = every part method with each of its non-default option sets
+(PptxSlide.get_text(include_image_captions=True)).  The alphabet of a document is therefore 10 (11 for e-mail) base observers
++ its option variants (PPTX: 15); optional parameters without enumerable domain would be listed in the coverage and left at
+their default (none today).  State =
 canonical deep snapshot of the result list (dataclass fields, instance __dict__ extras, BytesIO content and position).  ALL
 observer sequences of length <= 2 are executed explicitly from a fresh extraction (no state merging); length 3 (thorough):
 every triple explicitly for the fixtures and the rich documents, for the other documents from every state first reached at
@@ -434,12 +449,12 @@ def explore(data, name, depth, replay="extract", explicit3=False):
     try:
         res0 = O.extract(data, name)
     except Exception as e:  # noqa
-        return {"states": 0, "trans": 0, "closed": True, "fails": [], "outcome": "refused:" + type(e).__name__, "hidden": 0}
+        return {"states": 0, "trans": 0, "closed": True, "fails": [], "outcome": "refused:" + type(e).__name__, "hidden": 0, "alpha": []}
     alpha = O.alphabet_for(res0)
     s0 = O.state_key(res0)
     if O.state_key(O.extract(data, name)) != s0:
         # two extractions in one process differ: clause `repeat` reports it; histories have no reference
-        return {"states": 1, "trans": 0, "closed": False, "fails": [], "outcome": "unstable-extraction", "hidden": 0}
+        return {"states": 1, "trans": 0, "closed": False, "fails": [], "outcome": "unstable-extraction", "hidden": 0, "alpha": alpha}
     if replay == "copy":
         try:
             if O.state_key(copy.deepcopy(res0)) != s0:
@@ -492,6 +507,7 @@ def explore(data, name, depth, replay="extract", explicit3=False):
                 step(p + [o3])
         last_new = new_at[3]
     return {"states": len(seen), "trans": trans, "closed": not last_new, "fails": fails, "hidden": hidden, "replay": replay,
+            "alpha": alpha, "unenumerated": sorted(O.UNENUMERATED),
             "outcome": "states=%d new=%d/%d/%d" % (len(seen), len(new_at[1]), len(new_at[2]), len(new_at[3]))}
 
 
@@ -725,7 +741,8 @@ def _run(ctx, tier, seeds, specs, by_key, herr, fails, stage):
     # ---- judge the histories
     states = trans = closed = closed_clean = hidden_t = explored = refused = 0
     samples = []
-    sample_keys = {D.spec_key(D.rich_spec("docx", 2)), "gen:odt:images=5", "gen:eml:atts=5", "fix:pdf/sample.pdf", "gen:7z:members=5",
+    observers, unenumerated = [], set()
+    sample_keys = {"gen:pptx:altimgs=5", D.spec_key(D.rich_spec("docx", 2)), "gen:odt:images=5", "gen:eml:atts=5", "fix:pdf/sample.pdf", "gen:7z:members=5",
                    "gen:xlsx:rows=5"}
     for (st, r, note), a in zip(hist_out.get("res", []), hargs):
         if st != "done":
@@ -745,6 +762,8 @@ def _run(ctx, tier, seeds, specs, by_key, herr, fails, stage):
             else:
                 explored += 1
             closed += 1 if d["closed"] else 0
+            observers.extend(o for o in d.get("alpha", []) if o not in observers)
+            unenumerated.update(d.get("unenumerated", []))
             outcomes.add((fmt, "hist", d["outcome"], bool(d["fails"])))
             for hist, w, m in d["fails"]:
                 fails.append(("history", fmt, {"cfg": "hist", "doc": spec, "hist": hist, "where": w}, f"{d['key']}: {m}"))
@@ -763,7 +782,9 @@ def _run(ctx, tier, seeds, specs, by_key, herr, fails, stage):
            "warm_process_extractions": nwarm, "library_judged_in_every_process": library,
            "documents_with_seed_dependent_json": sum(1 for v in seed_classes.values() if v > 1),
            "input_position_after_extraction": positions,
-           "history_depth": depth, "observers": O.ALPHABET, "documents_explored": explored, "documents_refused_by_library": refused,
+           "history_depth": depth, "observers": sorted(observers, key=lambda o: (O.ALPHABET.index(O.parse_obs(o)[0]), o)),
+           "base_observers": O.ALPHABET, "observer_options_discovered_by_reflection": sorted(o for o in observers if "(" in o),
+           "optional_parameters_not_enumerable_left_at_default": sorted(unenumerated), "documents_explored": explored, "documents_refused_by_library": refused,
            "documents_closed": closed, "state_changing_transitions_not_visible_to_observers_or_judged_by_value": hidden_t,
            "documents_closed_without_history_failure": closed_clean,
            "closure": (f"{closed} of {explored + refused} documents: no new state appears at history length {depth}, i.e. every state "
@@ -774,7 +795,7 @@ def _run(ctx, tier, seeds, specs, by_key, herr, fails, stage):
            "samples": sorted(samples, key=lambda s: s["doc"]),
            "rule": "D = all fixtures + per generated format {empty, rich x2[, x3], each feature x5[,6,8], [pairs x5]}; configurations = one "
                    "new interpreter per PYTHONHASHSEED over all of D (+ second extraction in the same process, + third extraction from the re-used buffer, + caller buffer compared) "
-                   "; fresh-process: one new interpreter per document with counts <= 2 (thorough: per document) + one warm interpreter extracting all of D twice, once each; histories = all observer sequences of length <= 2 executed from a "
+                   "; fresh-process: one new interpreter per document with counts <= 2 (thorough: per document) + one warm interpreter extracting all of D twice, once each; histories = observers: base observers + one per non-default value combination of the optional (bool) parameters found by reflection on the interface methods, serialize_extraction and the methods of the result's parts; all observer sequences of length <= 2 executed from a "
                    "fresh result (generated: new extraction, fixtures: verified deep copy), length 3 (thorough): all triples for fixtures and rich documents, else from states first reached at length 2; states = distinct canonical snapshots reached "
                    "(summed over documents), transitions = observer applications judged; distinct_nontrivial = distinct (format, "
                    "result kind, seed-dependence, state-graph shape, failing) classes"}
